@@ -11,6 +11,7 @@ import (
 	"fmt"
 	"math/rand"
 	"reflect"
+	"runtime/debug"
 	"sort"
 	"strings"
 	"sync"
@@ -338,6 +339,10 @@ type call struct {
 	returned []interface{}
 	mixed    bool // statement-level confinement not attributable (shared batch)
 	block    int  // mixed-live: identifies the reactive computation the call ran in
+	// sharedOpts: the *SelectOptions object this call shares with the other
+	// calls of its reuse block (passed uncopied)
+	sharedOpts *sqlgen.SelectOptions
+	stack      string // goroutine stack when the call panicked
 }
 
 func (c *call) describe() string {
@@ -470,6 +475,9 @@ type scenario struct {
 	nextID  int
 	nextRow int64
 	txTags  map[string]bool
+	// nGenerated handles come first in handles/specs; one extra unrestricted
+	// handle (the base DB) follows, used by the options-reuse blocks
+	nGenerated int
 	// abandoned: a reactive computation is still running; the scenario is not judged
 	abandoned bool
 }
@@ -889,6 +897,7 @@ func (s *scenario) exec(ctx context.Context, c *call, db *sqlgen.DB, ldb *livesq
 		c.ran = true
 		if p := recover(); p != nil {
 			c.panicked = p
+			c.stack = vlib.Trunc(string(debug.Stack()), 4000)
 			c.err = fmt.Errorf("panic: %v", p)
 		}
 	}()
@@ -900,6 +909,12 @@ func (s *scenario) exec(ctx context.Context, c *call, db *sqlgen.DB, ldb *livesq
 		}
 	}
 	opts := copyOpts(c.opts)
+	if c.sharedOpts != nil {
+		// the caller keeps ONE options object across several calls (e.g. a
+		// package-level "newest first" value); thunder merges each call's filter
+		// into it, so it is passed as is, never copied
+		opts = c.sharedOpts
+	}
 	switch c.op {
 	case "Query", "FullScanQuery", "LiveQuery", "LiveFullScanQuery":
 		res := reflect.New(reflect.SliceOf(reflect.PtrTo(typ)))
@@ -983,10 +998,12 @@ func (s *scenario) play() {
 	bg := context.Background()
 	nBlocks := 3 + r.Intn(3)
 	for b := 0; b < nBlocks && !s.abandoned; b++ {
-		h := r.Intn(len(s.handles))
+		h := r.Intn(s.nGenerated)
 		db := s.handles[h]
 		ldb := livesql.NewLiveDB(db)
-		switch kind := r.Intn(10); {
+		switch kind := r.Intn(12); {
+		case kind >= 10: // 2-3 select calls that share ONE *SelectOptions object
+			s.reuseBlock(b, h)
 		case kind < 3: // plain
 			for k := 0; k < 2+r.Intn(2); k++ {
 				c := s.genCall("plain", h, pickOp(r, "plain"))
@@ -1051,7 +1068,7 @@ func (s *scenario) play() {
 			var cs []*call
 			table := tableNames[r.Intn(3)]
 			for k := 0; k < n; k++ {
-				hh := r.Intn(len(s.handles))
+				hh := r.Intn(s.nGenerated)
 				c := s.genCall("mixed-batch", hh, pickOp(r, "mixed-batch"))
 				if c.table != table {
 					c.table = table
@@ -1071,7 +1088,7 @@ func (s *scenario) play() {
 			}
 			wg.Wait()
 		default: // two LiveDBs (different handles) in one reactive computation, same queries
-			h2 := r.Intn(len(s.handles))
+			h2 := r.Intn(s.nGenerated)
 			ldb2 := livesql.NewLiveDB(s.handles[h2])
 			var first, second []*call
 			for k := 0; k < 1+r.Intn(2); k++ {
@@ -1089,6 +1106,95 @@ func (s *scenario) play() {
 				}
 			})
 		}
+	}
+}
+
+// reuseBlock issues 2-3 select calls (db and LiveDB; plain, in a transaction
+// or inside one reactive computation; possibly across the unrestricted base
+// handle and a limited one, limited handle second) that all pass the SAME
+// *sqlgen.SelectOptions pointer. sqlgen merges each call's filter into that
+// object (MakeSelectQuery mutates the caller's options), so on the unchanged
+// tree later statements carry the earlier filters AND-ed in front of the
+// current one: still confined, possibly fewer rows. Only compliance errors,
+// statement confinement and confinement of returned rows are judged.
+func (s *scenario) reuseBlock(b, h int) {
+	r := s.r
+	bg := context.Background()
+	table := tableNames[r.Intn(len(tableNames))]
+	shared, desc := s.genOptions(table, "plain")
+	if shared == nil {
+		shared, desc = &sqlgen.SelectOptions{}, "empty"
+	}
+	if shared.ForUpdate {
+		shared.ForUpdate = false // no lock waits across handles
+	}
+	base := len(s.handles) - 1
+	n := 2 + r.Intn(2)
+	ctxKind := []string{"reuse-plain", "reuse-tx", "reuse-live"}[r.Intn(3)]
+	var cs []*call
+	for k := 0; k < n; k++ {
+		hh := h
+		if k == 0 && r.Intn(2) == 0 {
+			hh = base // first use through the unrestricted handle
+		} else if k > 0 && r.Intn(5) == 0 {
+			hh = r.Intn(s.nGenerated)
+		}
+		var op string
+		if ctxKind == "reuse-live" {
+			op = readOps[4+r.Intn(3)]
+		} else {
+			op = []string{"Query", "QueryRow", "FullScanQuery", "LiveQuery", "LiveQueryRow", "LiveFullScanQuery"}[r.Intn(6)]
+		}
+		c := s.newCall(op, ctxKind, table, hh)
+		limits := s.specs[hh].enforced(table)
+		c.intent = s.pickIntent()
+		if k > 0 && r.Intn(2) == 0 {
+			c.intent = "identical" // a complying later call is what reaches the database
+		}
+		if ctxKind == "reuse-live" && c.intent == "nil" {
+			// accumulated options can carry more than 8 arguments; with a nil among
+			// them internal.MakeHashable (LiveDB's cache key) panics - a defect of
+			// its own (see FINDINGS.md), kept out of this workload
+			c.intent = "missing"
+		}
+		c.filter = s.genFilter(table, limits, c.intent)
+		if k == 0 && r.Intn(4) == 0 && len(limits) == 0 {
+			c.filter = nil // options first used with an empty filter
+		}
+		c.sharedOpts, c.optDesc = shared, "shared:"+desc
+		c.classify(limits)
+		cs = append(cs, c)
+	}
+	run := func(ctx context.Context) {
+		for _, c := range cs {
+			s.exec(ctx, c, s.handles[c.handle], livesql.NewLiveDB(s.handles[c.handle]))
+		}
+	}
+	switch ctxKind {
+	case "reuse-plain":
+		run(bg)
+	case "reuse-tx":
+		tag := fmt.Sprintf("tx-%d-%d", s.idx, b)
+		s.txTags[tag] = true
+		txctx, tx, err := s.base.WithTx(fakesql.WithTag(bg, tag))
+		if err != nil {
+			s.run.Broken(fmt.Sprintf("case %d: WithTx: %v", s.idx, err))
+			return
+		}
+		run(txctx) // all handles share the base connection, hence the transaction
+		tx.Rollback()
+	default:
+		ldbs := map[int]*livesql.LiveDB{}
+		for _, c := range cs {
+			if ldbs[c.handle] == nil {
+				ldbs[c.handle] = livesql.NewLiveDB(s.handles[c.handle])
+			}
+		}
+		s.runInRerunner(func(ctx context.Context) {
+			for _, c := range cs {
+				s.exec(ctx, c, s.handles[c.handle], ldbs[c.handle])
+			}
+		})
 	}
 }
 
@@ -1233,6 +1339,9 @@ func (s *scenario) witness(c *call, what string, stmts []*fakesql.Stmt) map[stri
 	if c != nil {
 		w["call"] = c.describe()
 		w["enforced_limits"] = fmt.Sprint(pairsString(s.specs[c.handle].enforced(c.table)))
+		if c.stack != "" {
+			w["panic_stack"] = c.stack
+		}
 		if c.err != nil {
 			w["returned_error"] = c.err.Error()
 		} else {
@@ -1457,6 +1566,9 @@ func runScenario(run *vlib.Run, i int) {
 		s.specs = append(s.specs, spec)
 		s.handles = append(s.handles, h)
 	}
+	s.nGenerated = len(s.handles)
+	s.specs = append(s.specs, &handleSpec{})
+	s.handles = append(s.handles, s.base)
 	since := eng.Mark("scenario")
 	s.play()
 	if s.abandoned {
